@@ -23,9 +23,9 @@ from vlib.simnet import workloads as WL
 PID = 'C13'
 
 BUDGET = {
-    # tier: (raise scenarios, exhaustive history length, random histories)
-    'quick': (260, 2, 420),
-    'thorough': (5000, 3, 9000),
+    # tier: (raise scenarios, exhaustive history length, random histories, late-error scenarios)
+    'quick': (260, 2, 420, 160),
+    'thorough': (5000, 3, 9000, 3000),
 }
 
 OPS = ('status', 'result', 'cancel')
@@ -106,6 +106,31 @@ def make_random_history(seed: int, idx: int) -> dict:
     if rng.random() < 0.4:
         t3 = small_tree(rng, 'c2t')
         sc['clients'].insert(2, {'name': 'c2', 'ops': [['connect'], ['compile', t3], ['close']]})
+    return sc
+
+
+def make_late_error(seed: int, idx: int) -> dict:
+    """A compilation whose root returns at once while an un-awaited child
+    raises: the ERROR races the RESULT (and the cancel of the child) to the
+    server; afterwards the client keeps talking to the server."""
+    rng = core.rng_for(seed, PID, 4, idx)
+    sc = driver.sched_params(rng)
+    nm = int(rng.integers(1, 3))
+    topo = {'kind': 'detached', 'managers': [int(rng.integers(1, 4)) for _ in range(nm)], 'nested': False}
+    steps: list = []
+    nkids = int(rng.integers(1, 4))
+    for k in range(nkids):
+        steps.append(['submit', 'e%d' % k, {'tag': 'c0aE%d' % k, 'steps': [['raise', 'late-boom-%d' % k]]}])
+    if rng.random() < 0.5:
+        steps.append(['submit', 'q', {'tag': 'c0aQ', 'steps': []}])
+        steps.append(['await', 'q'])
+    ta = {'tag': 'c0a0', 'steps': steps}
+    ops: list = [['connect'], ['submit', 'a', ta], ['result', 'a']]
+    for _ in range(int(rng.integers(1, 4))):
+        ops.append(['yield', int(rng.choice([2, 10, 40, 120]))])
+        ops.append([str(rng.choice(['status', 'status', 'cancel'])), str(rng.choice(['a', 'unknown']))])
+    ops.append(['close'])
+    sc.update({'topology': topo, 'clients': [{'name': 'c0', 'ops': ops}, probe_client()], 'features': ['late_error'], 'family': 'late_error', 'history': None})
     return sc
 
 
@@ -223,6 +248,9 @@ def judge(sc: dict, obs: dict) -> tuple[list[dict], str | None]:
                 w.append({'kind': 'isolation:other_clients_task_disturbed', 'msg': rec.get('msg', '')[-300:], 'site': scen._err_site(rec.get('msg', '')), 'history': sc.get('history')})
             elif scen.norm(rec['value'].get('tree_result')) != scen.norm(v):
                 w.append({'kind': 'isolation:other_clients_result_wrong', 'got': rec['value'], 'want': v})
+    # ---- every task error received while its client is still talking to
+    # the server is forwarded to that client (also after the result shipped)
+    w += scen.check_errors_forwarded(sc, obs)
     # ---- nobody hangs
     w += scen.check_progress(sc, obs)
     # ---- the server loop itself must not have crashed
@@ -244,7 +272,7 @@ def main(tier: str, seed: int, replay: str | None = None) -> int:
     run = core.Run(PID, tier, seed)
     if replay:
         return driver.replay_main(run, replay, judge, nontrivial)
-    n_raise, ex_len, n_rand = BUDGET[tier]
+    n_raise, ex_len, n_rand, n_late = BUDGET[tier]
     scs = [(make_raise_scenario(seed, i), 'raise') for i in range(n_raise)]
     alphabet = [(o, t) for o in OPS for t in TARGETS]
     n_ex = 0
@@ -254,6 +282,7 @@ def main(tier: str, seed: int, replay: str | None = None) -> int:
             scs.append((history_scenario(rng, list(seq), 'hist_exhaustive'), 'hist_exhaustive'))
             n_ex += 1
     scs += [(make_random_history(seed, i), 'hist_random') for i in range(n_rand)]
+    scs += [(make_late_error(seed, i), 'late_error') for i in range(n_late)]
     results = runner.run_many([s for s, _ in scs])
     acc = driver.Accountant(run)
     for (sc, fam), obs in zip(scs, results):
@@ -262,10 +291,11 @@ def main(tier: str, seed: int, replay: str | None = None) -> int:
             if c['client'] == 'cz' and c['op'] == 'compile' and c['outcome'] == 'value':
                 run.count('liveness_probes_answered')
         run.count('raising_bodies_reached', sum(1 for x in obs.get('exec_log', []) if x[2] == 'raise'))
+        run.count('errors_forward_checked', obs.get('_errors_forward_checked', 0))
     acc.finish_extra()
     run.extra['exhaustive_histories'] = n_ex
     run.extra['exhaustive_subspace'] = 'all request sequences of length <= %d over {status,result,cancel} x {own task, never-issued id, other client\'s id} after one submit (one schedule each)' % ex_len
-    for c in ('liveness_probes_answered', 'raising_bodies_reached', 'executions:hist_exhaustive', 'executions:hist_random'):
+    for c in ('liveness_probes_answered', 'raising_bodies_reached', 'executions:hist_exhaustive', 'executions:hist_random', 'errors_forward_checked'):
         run.require(c, 1)
     return run.finish(
         rule='families: task trees with a raising body at a random position (root/child/grandchild/inside map/after partial results) on attached and detached topologies with bystander and probe clients; request histories by the real Compiler methods on a detached server: all sequences up to the length bound over {status,result,cancel} x {own id, never-issued id, another client\'s id}, and random histories of 3-8 requests over two own tasks with 2-4 clients; every history ends with a fresh probe client compiling a trivial task. distinct = (tree shapes, client ops, topology, delivery-order hash); non-trivial = a raising body ran / at least one request was answered',
